@@ -124,6 +124,9 @@ func defaultCfg(spec HarnessSpec, tier int, deadline time.Time, workers int, ver
 	if spec.MaxSteps > 0 {
 		cfg.MaxSteps = spec.MaxSteps
 	}
+	if v, err := strconv.Atoi(os.Getenv("GOSYM_QUERY_MS")); err == nil && v > 0 {
+		cfg.QueryMs = v
+	}
 	cfg.MaxPaths = spec.MaxPaths[tier]
 	cfg.HangCheck = spec.HangChk
 	return cfg
